@@ -118,7 +118,7 @@ class ScipyOptimizeDriver(Driver):
     _lincongrad_cache : np.ndarray
         Pre-calculated gradients of linear constraints.
     _desvar_array_cache : np.ndarray
-        Cached array for setting design variables.
+        Design variable array (in optimizer space) at which the model was last evaluated.
     """
 
     def __init__(self, **kwargs):
@@ -297,6 +297,10 @@ class ScipyOptimizeDriver(Driver):
                         p_high = None
 
                     bounds.append((p_low, p_high))
+
+        # The model has just been evaluated at the initial design point.
+        self._desvar_array_cache = x_init.copy()
+        self._grad_cache = None
 
         if use_bounds and (opt in _supports_new_style) and _use_new_style:
             # For 'trust-constr' it is better to use the new type bounds, because it seems to work
@@ -583,6 +587,11 @@ class ScipyOptimizeDriver(Driver):
             if MPI:
                 model.comm.Bcast(x_new, root=0)
 
+            # Remember the design point at which the model is evaluated. Gradients cached at the
+            # previous point are no longer valid.
+            self._desvar_array_cache = np.array(x_new, dtype=float)
+            self._grad_cache = None
+
             # Update the cached design variable vector
             dv_vec.set_data(x_new, driver_scaling=True)
 
@@ -608,6 +617,21 @@ class ScipyOptimizeDriver(Driver):
 
         return f_new
 
+    def _update_design_point(self, x_new):
+        """
+        Run the model at the given design point unless that is where it was last evaluated.
+
+        Scipy does not guarantee that the objective is the first function it evaluates at a new
+        design point.
+
+        Parameters
+        ----------
+        x_new : ndarray
+            Array containing input values at new design point.
+        """
+        if not np.array_equal(x_new, self._desvar_array_cache):
+            self._objfunc(x_new)
+
     def _con_val_func(self, x_new, name, dbl, idx):
         """
         Return the value of the constraint function requested in args.
@@ -631,9 +655,9 @@ class ScipyOptimizeDriver(Driver):
         float
             Value of the constraint function.
         """
-        if self.options['optimizer'] in ['differential_evolution', 'COBYQA']:
-            # the DE opt will not have called this, so we do it here to update DV/resp values
-            self._objfunc(x_new)
+        # the optimizer may not have evaluated the objective at this point, so we do it here to
+        # update DV/resp values
+        self._update_design_point(x_new)
 
         return self._con_cache[name][idx]
 
@@ -662,6 +686,8 @@ class ScipyOptimizeDriver(Driver):
         """
         if self._exc_info is not None:
             self._reraise()
+
+        self._update_design_point(x_new)
 
         cons = self._con_cache
         meta = self._cons[name]
@@ -701,6 +727,8 @@ class ScipyOptimizeDriver(Driver):
         """
         prob = self._problem()
         model = prob.model
+
+        self._update_design_point(x_new)
 
         try:
             grad = self._compute_totals(of=self._obj_and_nlcons, wrt=self._dvlist,
@@ -756,8 +784,9 @@ class ScipyOptimizeDriver(Driver):
         if meta['linear']:
             grad = self._lincongrad_cache
         else:
+            self._update_design_point(x_new)
             if self._grad_cache is None:
-                # _gradfunc has not been called, meaning gradients are not
+                # _gradfunc has not been called at this point, meaning gradients are not
                 # used for the objective but are needed for the constraints
                 self._gradfunc(x_new)
             grad = self._grad_cache
